@@ -64,6 +64,12 @@ class Own(Flow):
                 return 'own'
             if not r and isinstance(e.func, ast.Name) and self._class_valued(e.func):
                 return 'own'
+            if not r and isinstance(e.func, ast.Name):
+                from .model import dispatch_targets
+                from . import tok as T
+                tg = dispatch_targets(self.model, e, T.resolve_local)
+                if tg and all(self.summ.returns(t) == 'own' for t in tg):
+                    return 'own'
             if r and r[0] == 'ext' and r[1] in ('copy.copy', 'copy.deepcopy'):
                 return 'own'
             if r and r[0] == 'func':
